@@ -73,6 +73,10 @@ CHECKS = {
    technique="TLA+ spec DateTime.tla (overwrite/convert decision table of parseDateTime; proleptic-Gregorian calendar with instants as (day, second)) checked by TLC; its 16 table rows are concretised by the driver and every call of the four functions is trace-validated by TLC (Trace_DateTime.tla) with the specification's own calendar",
    text="TLC enumerates the decision table and checks the calendar anchors; the driver concretises every row for a boundary grid of instants (years 1-9999) plus random ones, 38 IANA zones and the smart parser's advertised layouts, and records inputs, tz-database offsets and outputs as small integers; TLC checks instant preservation, wall-clock preservation when no zone is involved, output offsets, Unix time in both units and the inverse, empty->empty and unparsable->error. Numeric fidelity is the weak end of TLA+; instants beyond the grid are sampled.",
    note="Trusted: TLC, Go's time package and the tz database for offsets and for parsing the functions' RFC 3339 output. LMT-era second-granular offsets are excluded."),
+ "C14": dict(cat="exploration", design="5/C14",
+   technique="TLC enumerates the interleavings of the shared-state models (Conc.tla: node pool + ID counter; JSVM.tla: VM pool); the real code runs 4-32 goroutines under several GOMAXPROCS in a -race build, transcripts are validated by TLC against the serial run (Trace_Runs.tla) and pool hand-overs against Trace_Pool.tla; race reports are violations",
+   text="Model: all interleavings of 2-3 goroutines on the pool/ID-counter and VM-pool protocols keep single ownership and distinct IDs. Code: for GOMAXPROCS 1/4/16 (thorough also 2) the -race harness drives the whole corpus concurrently (same schema at once, mixed schemas; with and without javascript); every goroutine's transcript must equal the serial transcript, the get/put events of the node pool must respect single ownership and ID uniqueness, and any data race the detector reports is a violation. Exploration: real schedules are sampled, not enumerated.",
+   note="Trusted: TLC, the Go race detector, sync.Pool/atomic. Schedules are those the runtime happens to produce."),
 }
 
 def main():
